@@ -203,6 +203,9 @@ def apply_gating(root: pathlib.Path):
         blk2 = re.sub(r'^(\s+)(' + enum + r'::(\w+)) => (?!\{)([^\n]*),$',
                       lambda mm: f"{mm.group(1)}{mm.group(2)} => {{ #[cfg(kani)] crate::instruction::verif_gate::{gate}({mm.group(2)}); {mm.group(4)} }},",
                       blk, flags=re.M)
+        for nm, fn in (('And', 'and'), ('Or', 'or')):
+            old = f'            return {fn}::exec(lhs, &self.rhs, interpreter);'
+            blk2 = blk2.replace(old, f'            #[cfg(kani)] crate::instruction::verif_gate::{gate}({enum}::{nm});\n' + old) if enum == 'BinOperator' else blk2
         g.write_text(t.replace(blk, blk2))
     return [v[0] for v in variants]
 
